@@ -124,6 +124,47 @@ CHECKS = {
              'exploration.',
         note='unlimited result taken from placement itself (its correctness '
              'is C03); random module seeded by the harness'),
+    'C05': dict(
+        engine='txn-scheduler', category='exploration', design='4.C05',
+        technique='schedule exploration with a harness-owned scheduler '
+                  '(bounded-preemption exhaustive + Hypothesis free '
+                  'schedules) over generated states/requests; oracle = '
+                  'generation sampled by raw SQL at every scheduling point, '
+                  'serial-replay equivalence, loser analysis',
+        text='2-3 real request threads on one provider are interleaved at '
+             'top-level-transaction granularity; every atomic insertion is '
+             'enumerated, two-splits and free schedules sampled. Checks: '
+             'accepted generation == stored generation before the write '
+             'transaction, at most one winner per generation, no 5xx, losers '
+             '409 concurrent_update when only the generation is stale, no '
+             'committed effect of losers, serial equivalence of winners.',
+        note='transactions are atomic and isolated by construction of the '
+             'scheduler (serializable-DBMS model); SQLite; not real lock waits'),
+    'C06': dict(
+        engine='txn-scheduler', category='exploration', design='4.C06',
+        technique='schedule exploration (as C05) of 2-3 allocation writers '
+                  'sharing a consumer; oracle = consumer generation before '
+                  'the write transaction, winner uniqueness, loser analysis, '
+                  'serial-replay equivalence',
+        text='Concurrent PUT/POST allocations and reshaper requests on one new '
+             'or existing consumer with equal, stale or null generations; '
+             'checks that a success carried the stored generation, that equal '
+             'generations yield at most one success, that losers get 409 '
+             'concurrent_update and neither leave nor destroy rows, and that '
+             'the final view is the last winner\'s body.',
+        note='as C05; serial equivalence only demanded when every carried '
+             'generation is plausible for the start state (see DESIGN.md)'),
+    'C07': dict(
+        engine='txn-scheduler', category='exploration', design='4.C07',
+        technique='schedule exploration (as C05) of contending requests with '
+                  'correct generations; oracle = serial-replay equivalence '
+                  '(commit order first, then all permutations)',
+        text='Requests racing for the last units of an inventory, against '
+             'inventory shrink/removal, moving usage between consumers, '
+             'trait/aggregate updates (server-side retry path), reshapes: the '
+             '2xx requests replayed serially must all succeed and reproduce '
+             'the concurrent final raw dump exactly.',
+        note='as C05'),
 }
 
 NOT_APPLICABLE = {}
@@ -178,6 +219,11 @@ def main():
              'serves_properties': ['C02', 'C03', 'C13', 'C20'],
              'kind_free_text': 'Hypothesis-generated states and structured '
                                'queries; brute-force reference pv/acref.py'},
+            {'name': 'txn-scheduler', 'path': 'pv/sched.py',
+             'serves_properties': ['C05', 'C06', 'C07'],
+             'kind_free_text': 'baton scheduler over real request threads; '
+                               'scheduling points = pool checkin with no '
+                               'connection checked out'},
         ],
         'checks': checks,
         'not_applicable': na,
